@@ -458,7 +458,82 @@ def r_format(text, log):
     return apply_edits(text, edits)
 
 
-GENERIC_RULES = [r_attrs, r_tracing, r_let_chains, r_enumerate, r_closure_params, r_bool_or_assign]
+def r_miette(text, log):
+    """R7m: `miette!(..)` (error report construction) -> prelude::opaque_report()"""
+    toks = lex(text)
+    sg = sig(toks)
+    edits = []
+    for p, k in enumerate(sg):
+        t = toks[k]
+        if t.kind == "ident" and t.text == "miette" and p + 2 < len(sg) and toks[sg[p + 1]].text == "!" and toks[sg[p + 2]].text == "(":
+            c = match_close(toks, sg[p + 2])
+            for a in toks[sg[p + 2] + 1:c]:
+                if a.kind == "ident" and a.text in ("await", "mut") or (a.kind == "punct" and a.text in ("?",)):
+                    raise WbxError("R7m: miette! with effectful argument")
+            edits.append((t.s, toks[c].e, "opaque_report()"))
+    bump(log, "R7m miette!(..) -> opaque_report()", len(edits))
+    return apply_edits(text, edits)
+
+
+GENERIC_RULES = [r_miette, r_attrs, r_tracing, r_let_chains, r_enumerate, r_closure_params, r_bool_or_assign]
+
+
+def r_pub_fields(text, log):
+    """R9: every field of an extracted struct becomes `pub` (visibility has no semantic content in the
+    single-file crate; Verus otherwise treats the datatype as opaque in contracts of pub functions)"""
+    toks = lex(text)
+    sg = sig(toks)
+    kw = next((p for p, k in enumerate(sg) if toks[k].kind == "ident" and toks[k].text == "struct"), None)
+    if kw is None:
+        return text
+    # first '{' or '(' after the name/generics at angle depth 0
+    p = kw + 2
+    depth = 0
+    while p < len(sg):
+        t = toks[sg[p]].text
+        if t == "<":
+            depth += 1
+        elif t == ">":
+            depth -= 1
+        elif t == ">>":
+            depth -= 2
+        elif depth == 0 and t in ("{", "("):
+            break
+        elif depth == 0 and t == ";":
+            return text
+        p += 1
+    if p >= len(sg):
+        return text
+    ob = sg[p]
+    cb = match_close(toks, ob)
+    edits = []
+    q = p + 1
+    start = True
+    d = 0
+    while sg[q] < cb:
+        t = toks[sg[q]]
+        if start:
+            # skip attributes
+            while t.text == "#":
+                c = match_close(toks, sg[q + 1])
+                q = sg.index(c) + 1
+                t = toks[sg[q]]
+            if sg[q] >= cb:
+                break
+            if t.text != "pub":
+                edits.append((t.s, t.s, "pub "))
+            start = False
+        if t.text in OPEN or t.text == "<":
+            d += 1
+        elif t.text in CLOSE or t.text == ">":
+            d -= 1
+        elif t.text == ">>":
+            d -= 2
+        elif t.text == "," and d == 0:
+            start = True
+        q += 1
+    bump(log, "R9 struct fields made pub", len(edits))
+    return apply_edits(text, edits)
 
 
 def r_bounds(text, log):
@@ -633,6 +708,8 @@ class Gen:
         text = s[it.s:it.e]
         text = r_attrs(text, log)
         text = r_bounds(text, log)
+        if kind == "struct":
+            text = r_pub_fields(text, log)
         text = self.local_subs(text, d, log)
         for k, v in log.items():
             bump(self.meta["rewrites"], k, v)
@@ -701,6 +778,9 @@ class Gen:
                     raise WbxError(f"lost anchor: substitution source `{old}` not found in fn {name}")
                 text = apply_edits(text, [(a, b, new) for a, b in hits])
                 bump(log, f"S `{old}` -> `{new}` ({reason})", len(hits))
+        for kind, arg, lines in d.subs:
+            if kind == "closure":
+                text = self.closure_contract(text, name, arg, "\n".join(lines), log)
         rules = list(GENERIC_RULES)
         if "keepformat" not in opts:
             rules.append(r_format)
@@ -714,7 +794,7 @@ class Gen:
         loops = None
         for kind, arg, lines in d.subs:
             body = "\n".join(lines)
-            if kind == "sub":
+            if kind in ("sub", "closure", "props"):
                 continue
             if kind == "result":
                 result = arg
@@ -816,6 +896,37 @@ class Gen:
                 self.emit(cf.strip("\n"))
                 self.meta["functions"][-1]["canary_lines"] = [c0, self.lineno() - 1]
 
+    def closure_contract(self, text, fname, arg, spec, log):
+        """contract on a closure of the real body: `|p| BODY` -> `|p: T| -> (r: R) <spec> { BODY }` (BODY untouched)"""
+        m = re.match(r"`(.*?)`\s+params=`(.*?)`\s+ret=`(.*?)`\s*:$", arg)
+        if not m:
+            raise WbxError(f"bad closure directive `{arg}`")
+        anchor, params, ret = m.groups()
+        hits = find_tokens(text, anchor, "closure")
+        if len(hits) != 1:
+            raise WbxError(f"lost anchor: closure `{anchor}` occurs {len(hits)}x in fn {fname}")
+        s0, e0 = hits[0]
+        toks = lex(text)
+        sg = sig(toks)
+        # body: from the first significant token after the params to the enclosing `)` / `,` at depth 0
+        b = next(i for i, k in enumerate(sg) if toks[k].s >= e0)
+        q = b
+        depth = 0
+        while q < len(sg):
+            tt = toks[sg[q]].text
+            if tt in OPEN:
+                depth += 1
+            elif tt in CLOSE:
+                if depth == 0:
+                    break
+                depth -= 1
+            elif tt == "," and depth == 0:
+                break
+            q += 1
+        bs, be = toks[sg[b]].s, toks[sg[q - 1]].e
+        bump(log, "R13 closure parameter types annotated + closure contract attached")
+        return text[:s0] + params + " -> " + ret + "\n" + spec + "\n            { " + text[bs:be] + " }" + text[be:]
+
     def do_slice(self, d):
         """R6: one statement of a function as a function of its own"""
         name = d.arg.split()[0]
@@ -823,11 +934,16 @@ class Gen:
         raw = s[it.s:it.e]
         log = {}
         head = tail = spec = None
-        anchor = None
+        anchor = until = None
+        keepself = False
         new_name = None
         for kind, arg, lines in d.subs:
             if kind == "stmt":
                 anchor = arg.strip("`")
+            elif kind == "until":
+                until = arg.strip("`")
+            elif kind == "keepself":
+                keepself = True
             elif kind == "head:":
                 head = "\n".join(lines)
             elif kind == "tail:":
@@ -840,16 +956,25 @@ class Gen:
         if len(hits) != 1:
             raise WbxError(f"lost anchor: slice statement `{anchor}` occurs {len(hits)}x in fn {name}")
         st = hits[0][0]
+        scan_from = st
+        if until is not None:
+            uh = [h for h in find_tokens(body, until, "slice") if h[0] >= st]
+            if len(uh) != 1:
+                raise WbxError(f"lost anchor: slice end `{until}` occurs {len(uh)}x after the start in fn {name}")
+            scan_from = uh[0][0]
         toks = lex(body)
         depth = 0
         end = None
         for t in toks:
-            if t.s < st or t.kind != "punct":
+            if t.s < scan_from or t.kind != "punct":
                 continue
             if t.text in OPEN:
                 depth += 1
             elif t.text in CLOSE:
                 depth -= 1
+                if t.text == "}" and depth == 0 and until is not None:
+                    end = t.e  # block statement (`if .. { .. }`) ends the region
+                    break
             elif t.text == ";" and depth == 0:
                 end = t.e
                 break
@@ -886,7 +1011,7 @@ class Gen:
                 if tt.kind == "ident" and tt.text == "self":
                     has_self = True
                 r += 1
-            if has_self and not is_let and endk is not None:
+            if has_self and not is_let and endk is not None and not keepself:
                 q_mark = toks[sg[endk - 1]].text == "?"
                 edits.append((toks[sg[q]].s, toks[sg[endk]].e, "slice_opaque_effect()" + ("?" if q_mark else "") + ";"))
         bump(log, "R6b self-statement in slice -> slice_opaque_effect()", len(edits))
